@@ -13,6 +13,8 @@ package main
 import (
 	"bufio"
 	"bytes"
+	"context"
+	"net"
 	"fmt"
 	"io"
 	"net/http"
@@ -123,6 +125,19 @@ func fzRun(entry string, data []byte, arg string) (extra string) {
 		d := ws.Dialer{Protocols: []string{"a", "chat"}, Extensions: []httphead.Option{wsflate.DefaultParameters.Option()}}
 		d.Upgrade(&dlConn{resp: data, k: 0, fin: "E"}, u)
 		ws.Dialer{ReadBufferSize: 16}.Upgrade(&dlConn{resp: data, k: 3, fin: "E"}, u)
+	case "ddl":
+		// the debug wrapper around the dialer, with and without its response callback
+		for _, withCb := range []bool{true, false} {
+			d := ws.Dialer{NetDial: func(ctx context.Context, n, ad string) (net.Conn, error) {
+				return &scriptConn{dlc: &dlConn{resp: data, k: 0, fin: "E"}}, nil
+			}}
+			dd := wsutil.DebugDialer{Dialer: d}
+			if withCb {
+				dd.OnResponse = func([]byte) {}
+				dd.OnRequest = func([]byte) {}
+			}
+			dd.Dial(context.Background(), "ws://example.com/")
+		}
 	case "dcf":
 		wsflate.DecompressFrame(ws.Frame{Header: ws.Header{Fin: true, Rsv: 4, OpCode: ws.OpBinary, Length: int64(len(data))}, Payload: data})
 	case "pp":
@@ -285,7 +300,32 @@ func genC15(tier string, r *rng) {
 	}{
 		{"rh", frameSeeds}, {"rf", frameSeeds[:5]}, {"rdr", frameSeeds}, {"rm", frameSeeds[:5]}, {"rd", frameSeeds[:5]}, {"ctl", frameSeeds},
 		{"up", [][]byte{reqSeed}}, {"hup", [][]byte{reqSeed}}, {"dl", [][]byte{respSeed}}, {"dcf", deflSeeds}, {"pp", optSeeds}, {"neg", optSeeds},
-		{"ptok", optSeeds}, {"pext", optSeeds},
+		{"ptok", optSeeds}, {"pext", optSeeds}, {"ddl", [][]byte{respSeed}},
+	}
+	// handshake heads cut at EVERY offset (and with the bytes around the cut doubled), CRLF and LF: each
+	// entry point that reads a head returns
+	for _, eol := range []string{"\r\n", "\n"} {
+		rq := buildReq("GET", "/ws", "HTTP/1.1", baseHeaders(), eol)
+		rs := buildResp("HTTP/1.1 101 Switching Protocols", baseRespHeaders(), eol, nil)
+		for cut := 0; cut <= len(rs); cut++ {
+			if tier == "quick" && cut < len(rs)-12 && cut%5 != 0 {
+				continue
+			}
+			run(fmt.Sprintf("fz dl %s", hx(rs[:cut])))
+			run(fmt.Sprintf("fz ddl %s", hx(rs[:cut])))
+		}
+		for cut := 0; cut <= len(rq); cut++ {
+			if tier == "quick" && cut < len(rq)-12 && cut%5 != 0 {
+				continue
+			}
+			run(fmt.Sprintf("fz up %s", hx(rq[:cut])))
+		}
+		// header lines whose first byte is the colon
+		for _, line := range []string{": x", ":", ":::", ": "} {
+			run(fmt.Sprintf("fz up %s", hx(bytes.Replace(rq, []byte(eol+"Upgrade"), []byte(eol+line+eol+"Upgrade"), 1))))
+			run(fmt.Sprintf("fz dl %s", hx(bytes.Replace(rs, []byte(eol+"Upgrade"), []byte(eol+line+eol+"Upgrade"), 1))))
+			run(fmt.Sprintf("fz ddl %s", hx(bytes.Replace(rs, []byte(eol+"Upgrade"), []byte(eol+line+eol+"Upgrade"), 1))))
+		}
 	}
 	for _, p := range plan {
 		for _, s := range p.seeds {
